@@ -221,6 +221,7 @@ func run(c *ev.Ctx) {
 	e := &enumCtx{c: c, thorough: c.Thorough(), visit: func(cs sc.Case, docs []*gen.JV, family string) { evalAll(c, cs, docs, family) }}
 	typesFamily(e, true)
 	allOfFamily(e)
+	nestedAllOfFamily(e)
 	addPropsFamily(e)
 	shortcutFamily(e)
 }
@@ -441,6 +442,116 @@ func allOfFamily(c *enumCtx) {
 					}
 					c.visit(cs, ds, "allof")
 					c.Sample("allof", cs.Describe())
+				}
+			}
+		}
+	}
+}
+
+// nestedAllOfFamily: an object that extends types AND owns a property (directly, as an array item type, or
+// two levels down) whose object extends types itself; as the root, inside a user type, and as the item type
+// of a root array. Every document combines the members the outer and the inner extension demand.
+func nestedAllOfFamily(c *enumCtx) {
+	types := []sc.TypeDecl{
+		{Name: "@P1", Body: gen.Obj(gen.P("a", gen.Int("1")))},
+		{Name: "@P2", Body: gen.Obj(gen.P("b", gen.Str(`"s"`).With(gen.R("optional", "true"))))},
+		{Name: "@P3", Body: gen.Obj(gen.P("c", gen.Bool("true"))).With(gen.R("allOf", `"@P5"`))},
+		{Name: "@P5", Body: gen.Obj(gen.P("e", gen.Int("1")))},
+	}
+	xs := gen.P("x", gen.Int("1"))
+	xopt := gen.P("x", gen.Int("1").With(gen.R("optional", "true")))
+	inners := []*gen.Node{
+		gen.Obj(xs).With(gen.R("allOf", `"@P5"`)),
+		gen.Obj().With(gen.R("allOf", `"@P5"`)),
+		gen.Obj(xopt).With(gen.RL("allOf", lit(`"@P5"`), lit(`"@P2"`))),
+		gen.Obj(xs).With(gen.R("allOf", `"@P3"`)),
+		gen.Obj(xopt).With(gen.R("allOf", `"@P1"`)),
+	}
+	m := func(k string, v *gen.JV) gen.Member { return gen.Member{Key: k, Val: v} }
+	one, str, tr := gen.JInt("1"), gen.JStr(`"s"`), gen.JBool("true")
+	var innerDocs []*gen.JV
+	keys := []string{"x", "e", "b", "c", "a"}
+	vals := map[string][]*gen.JV{"x": {one, str}, "e": {one, str}, "b": {str}, "c": {tr}, "a": {one}}
+	var rec func(i int, cur []gen.Member)
+	rec = func(i int, cur []gen.Member) {
+		if i == len(keys) {
+			innerDocs = append(innerDocs, gen.JObj(append([]gen.Member{}, cur...)...))
+			return
+		}
+		rec(i+1, cur)
+		for _, v := range vals[keys[i]] {
+			rec(i+1, append(cur, m(keys[i], v)))
+		}
+	}
+	rec(0, nil)
+	innerDocs = append(innerDocs, gen.JNull(), gen.JArr(), gen.JObj(m("z", one), m("e", one), m("x", one)))
+	type shape struct {
+		name string
+		root func(inner *gen.Node) (*gen.Node, []sc.TypeDecl)
+		docs func(d *gen.JV, f func(*gen.JV))
+	}
+	outerDocs := func(wrap func(*gen.JV) *gen.JV) func(d *gen.JV, f func(*gen.JV)) {
+		return func(d *gen.JV, f func(*gen.JV)) {
+			f(wrap(gen.JObj(m("a", one), m("own", d))))
+			f(wrap(gen.JObj(m("own", d), m("a", one))))
+			f(wrap(gen.JObj(m("own", d))))
+			f(wrap(gen.JObj(m("a", str), m("own", d))))
+		}
+	}
+	id := func(v *gen.JV) *gen.JV { return v }
+	shapes := []shape{
+		{"root extends, own property extends", func(in *gen.Node) (*gen.Node, []sc.TypeDecl) {
+			return gen.Obj(gen.P("own", in)).With(gen.R("allOf", `"@P1"`)), nil
+		}, outerDocs(id)},
+		{"plain root, own property extends", func(in *gen.Node) (*gen.Node, []sc.TypeDecl) {
+			return gen.Obj(gen.P("a", gen.Int("1")), gen.P("own", in)), nil
+		}, outerDocs(id)},
+		{"root extends, own array of extending objects", func(in *gen.Node) (*gen.Node, []sc.TypeDecl) {
+			return gen.Obj(gen.P("own", gen.Arr(in))).With(gen.R("allOf", `"@P1"`)), nil
+		}, func(d *gen.JV, f func(*gen.JV)) {
+			f(gen.JObj(m("a", one), m("own", gen.JArr(d))))
+			f(gen.JObj(m("a", one), m("own", gen.JArr(gen.JObj(m("x", one), m("e", one)), d))))
+			f(gen.JObj(m("own", gen.JArr(d, d))))
+		}},
+		{"root extends, extending object two levels down", func(in *gen.Node) (*gen.Node, []sc.TypeDecl) {
+			return gen.Obj(gen.P("own", gen.Obj(gen.P("deep", in)))).With(gen.R("allOf", `"@P1"`)), nil
+		}, func(d *gen.JV, f func(*gen.JV)) {
+			f(gen.JObj(m("a", one), m("own", gen.JObj(m("deep", d)))))
+			f(gen.JObj(m("own", gen.JObj(m("deep", d)))))
+		}},
+		{"user type extends, its own property extends", func(in *gen.Node) (*gen.Node, []sc.TypeDecl) {
+			return gen.Ref("@W"), []sc.TypeDecl{{Name: "@W", Body: gen.Obj(gen.P("own", in)).With(gen.R("allOf", `"@P1"`))}}
+		}, outerDocs(id)},
+		{"heir of a type whose own property extends", func(in *gen.Node) (*gen.Node, []sc.TypeDecl) {
+			return gen.Obj(gen.P("r", gen.Int("1").With(gen.R("optional", "true")))).With(gen.R("allOf", `"@W"`)),
+				[]sc.TypeDecl{{Name: "@W", Body: gen.Obj(gen.P("own", in)).With(gen.R("allOf", `"@P1"`))}}
+		}, outerDocs(id)},
+		{"root array of extending objects whose own property extends", func(in *gen.Node) (*gen.Node, []sc.TypeDecl) {
+			return gen.Arr(gen.Obj(gen.P("own", in)).With(gen.R("allOf", `"@P1"`))), nil
+		}, outerDocs(func(v *gen.JV) *gen.JV { return gen.JArr(v) })},
+	}
+	for _, sh := range shapes {
+		for ii, in := range inners {
+			for _, typesFirst := range []bool{true, false} {
+				if !c.Mine() {
+					continue
+				}
+				root, extra := sh.root(in.Clone())
+				ts := append(append([]sc.TypeDecl{}, types...), extra...)
+				if !typesFirst {
+					ts = append(append([]sc.TypeDecl{}, extra...), types...)
+					if len(extra) == 0 {
+						continue
+					}
+				}
+				var docs []*gen.JV
+				for _, d := range innerDocs {
+					sh.docs(d, func(x *gen.JV) { docs = append(docs, x) })
+				}
+				cs := sc.Case{Root: root, Types: ts}
+				c.visit(cs, docs, "allof-nested")
+				if ii == 0 {
+					c.Sample("allof-nested", sh.name+": "+cs.Describe())
 				}
 			}
 		}
